@@ -1511,7 +1511,8 @@ func (self *Analyzer) matchExpression(node pAst.MatchExpression) ast.AnalyzedMat
 	}
 
 	// Without a default arm it is possible that no arm matches: even if every arm diverges, the match itself completes (with `null`).
-	if defaultArm == nil && resultType.Kind() == ast.NeverTypeKind {
+	// The same holds for a match without any arm: it has no value to take its type from.
+	if defaultArm == nil && (resultType.Kind() == ast.NeverTypeKind || len(node.Arms) == 0) {
 		resultType = ast.NewNullType(node.Range)
 	}
 
